@@ -34,8 +34,14 @@ func c19Config() core.SimConfig {
 		Verify:   core.FullVerify,
 		Listener: "full",
 		Trace:    true,
+
+		TraceNoShape: true,
 	}
 }
+
+// saltCounter hands out salts: every concurrent run registers component types the process has
+// never seen (a per-process cache keyed by type is then written concurrently).
+var saltCounter = 0
 
 // quietFailer collects a failure instead of aborting the test (used off the test goroutine).
 type quietFailer struct {
@@ -157,17 +163,22 @@ func checkGroup(c *c19Case, alone [][]string) string {
 			return fmt.Sprintf("world %d behaves differently when other worlds are used in between (same goroutine): %s", i, d)
 		}
 	}
-	// --- concurrent: one goroutine per world
+	// --- concurrent: one goroutine per world, each on fresh Go types of the same shapes
 	traces := make([][]string, n)
 	msgs := make([]string, n)
 	var wg sync.WaitGroup
 	start := make(chan struct{})
+	fresh := make([]c19World, n)
+	for i := 0; i < n; i++ {
+		saltCounter++
+		fresh[i] = c19World{Universe: c.Worlds[i].Universe.WithSalt(saltCounter), Ops: c.Worlds[i].Ops}
+	}
 	for i := 0; i < n; i++ {
 		wg.Add(1)
 		go func(i int) {
 			defer wg.Done()
 			<-start
-			traces[i], msgs[i] = runAlone(&c.Worlds[i])
+			traces[i], msgs[i] = runAlone(&fresh[i])
 		}(i)
 	}
 	close(start)
@@ -204,7 +215,7 @@ func TestC19(t *testing.T) {
 	mix[core.OpQuery] = 4
 	mix["useRegistered"] = 30
 	withStats(t, "C19", func(st *core.Stats) {
-		st.Rule = "groups of 2-6 worlds, each with its own generated universe (same type pools, different selections, ID placements and registration orders) and its own generated history over the full op mix (structural ops, batch ops, relations, cache, resources, listener, Reset). Every history is first run alone (trace: handles, counts, iteration orders, events, dumps, hidden-state digest). Then (a) the histories are interleaved step by step in ONE goroutine in a generated order, and after every step the hidden-state digest and the observables of all OTHER worlds must be unchanged and every world's trace must equal its alone-trace; (b) the histories run concurrently, one goroutine per world behind a start barrier, in a binary built with the race detector: no race report, no runtime fatal error, and every world's trace equals its alone-trace; non-trivial = a group with >= 2 worlds that each execute >= 5 structural ops"
+		st.Rule = "groups of 2-6 worlds, each with its own generated universe (same type pools, different selections, ID placements and registration orders) and its own generated history over the full op mix (structural ops, batch ops, relations, cache, resources, listener, Reset). Every history is first run alone (trace: handles, counts, iteration orders, events, dumps, hidden-state digest). Then (a) the histories are interleaved step by step in ONE goroutine in a generated order, and after every step the hidden-state digest and the observables of all OTHER worlds must be unchanged and every world's trace must equal its alone-trace; (b) the histories run concurrently, one goroutine per world behind a start barrier, each world on fresh Go types of the same shapes (types the process has never registered before), in a binary built with the race detector: no race report, no runtime fatal error, and every world's trace equals its alone-trace; non-trivial = a group with >= 2 worlds that each execute >= 5 structural ops"
 		if path, ok := replaying(); ok {
 			var c c19Case
 			if err := core.ReadReplay(path, &c); err != nil {
